@@ -49,6 +49,7 @@ Frag ==
                     {"CvE3"}, {"CvE3"})                                     \* error-returning converter two structs deep
   @@ "ptr"     :> F("Fptr" :> Src("Fptr"), {}, {})                           \* pointer value copied
   @@ "npath"   :> F("Fnp" :> Via("Pn", "Pn.X"), {}, {})                      \* :map Pn.X Fnp through the pointer member Pn *EN
+  @@ "skipci"  :> F(None, {}, {})                                            \* :skip fskipci, then :case:off BELOW it on the same method: the last case rule decides
   @@ "skip"    :> F(None, {}, {})                                            \* :skip Fskip - the leaf keeps its value
   @@ "nomatch" :> F(None, {}, {})                                            \* no source - the leaf keeps its value
 AllKinds == DOMAIN Frag
